@@ -219,6 +219,10 @@ class Real:
     def filt2(self, k):
         if k is None:
             return None
+        if k % 5 == 2 and not self.long_lived_filters:
+            # a SHORT-LIVED callable (an inline lambda in user code): a new object per call, dropped
+            # afterwards, so that its address can be reused by the next one
+            return TableFilter(self, k, 2)
         if k not in self.filters2:
             self.filters2[k] = (FalsyTableFilter if k % 3 == 1 else TableFilter)(self, k, 2)
         return self.filters2[k]
@@ -226,6 +230,8 @@ class Real:
     def filt1(self, k):
         if k is None:
             return None
+        if k % 5 == 2 and not self.long_lived_filters:
+            return TableFilter(self, k, 1)
         if k not in self.filters1:
             self.filters1[k] = (FalsyTableFilter if k % 3 == 1 else TableFilter)(self, k, 1)
         return self.filters1[k]
@@ -463,6 +469,7 @@ class Real:
 
     # -------------------------------------------------------------------- ops
     keep_mode = False
+    long_lived_filters = False      # C13 injects faults through the filter object: it must be the memo's key
 
     def keep(self, *containers):
         if self.keep_mode:
@@ -546,6 +553,10 @@ class Real:
             if "edge_whitelist" in kw:
                 kw["edge_whitelist"] = {k: dict(v) for k, v in kw["edge_whitelist"].items()}
                 self.keep(kw["edge_whitelist"], *kw["edge_whitelist"].values())
+                if len(self.W) % 2 == 1:
+                    # inner rule sets handed in as read-only VIEWS of dicts the caller still owns
+                    import types
+                    kw["edge_whitelist"] = {k: types.MappingProxyType(v) for k, v in kw["edge_whitelist"].items()}
             return "ok W%d" % self.reg_w(UniverseLaws(**kw))
         if op == "edge":
             l = LCLS[toks[1]](self.pv(toks[2]), self.pv(toks[3]))
@@ -662,6 +673,10 @@ class Real:
             if c is not None:
                 self.keep(c)
             return out
+        if op == "sattr":
+            reps = VALREPS[int(toks[3])]
+            setattr(self.pv(toks[1]), "a" + toks[2], reps[len(self.V) % len(reps)])
+            return "ok"
         if op == "attr":
             # attr V<b> <name> tup:V<a> | fs:V<a> | nest:V<a>:V<c> | lst:V<a>:V<c> | same:V<c>.<name>
             b, name, spec = self.pv(toks[1]), toks[2], toks[3].split(":")
@@ -740,8 +755,14 @@ class Real:
                     adj[self.pv(k)] = [self.pv(v) for v in vs.split(",") if v]
             nL = len(self.L)
             self.keep(adj, *adj.values())
-            u = adjlist.load_adj_dict(adj, linktype=LCLS[toks[1]])
-            return "ok V%d" % self.register_built(u, [(k, v) for k, vs in adj.items() for v in vs], nL)
+            pairs = [(k, v) for k, vs in adj.items() for v in vs]
+            arg = adj
+            if not self.keep_mode:
+                # the value lists "don't have to be lists -- only iterable objects": generators, tuples
+                arg = {k: ((x for x in vs) if i % 3 == 0 else tuple(vs) if i % 3 == 1 else vs)
+                       for i, (k, vs) in enumerate(adj.items())}
+            u = adjlist.load_adj_dict(arg, linktype=LCLS[toks[1]])
+            return "ok V%d" % self.register_built(u, pairs, nL)
         if op == "adjmat":
             from edgegraph.builder import adjmatrix
             vs = [] if toks[2] == "." else [self.pv(v) for v in toks[2].split(",")]
